@@ -738,7 +738,13 @@ def check(prop: str, tier: str) -> int:
         f"[{prop}] engine={eng.engine_name} tier={tier} VERIF_SEED={vseed} workers={workers} "
         f"xdsl={os.path.dirname(xdsl.__file__)}"
     )
-    eng.prepare(tier, vseed)
+    try:
+        eng.prepare(tier, vseed)
+    except HarnessError:
+        raise
+    except Exception as e:  # noqa: BLE001 - the harness could not even set itself up on this tree
+        print(f"HARNESS-ERROR: prepare failed: {type(e).__name__}: {str(e)[:300]}")
+        return 2
     known = load_known_findings(prop)
     n_self = min(eng.selftest_runs, cfg["runs"])
 
